@@ -140,12 +140,26 @@ TEXT['C06'] = dict(
 
 TEXT['C05'] = dict(
     category='other',
-    text='Bounded stand-in: the statements of the driver time loop are sliced mechanically out of fullSimulation.main and one '
-         'Strang step is executed with the real classes on 1 and on several simulated ranks; the assembled global f and phi must '
-         'agree with the serial run. The slice-locality contracts of DESIGN C05 (each operator uses the parameters of the own global '
-         'coordinates) are being added operator by operator.',
-    note=BOUNDED_NOTE + 'Found and fixed two genuine defects this way (fix: 3ea85e8, 5860959).',
-    technique='bounded differential run of the real driver statements across process grids under simulated MPI')
+    text='Deductive part (second sentence of the property, and the initial condition): (a) the three initialisers and their '
+         'kernels are verified for all local shapes and offsets - every local entry of the grid array equals f_eq * (1 + eps * '
+         'perturbation) (both uninterpreted) at the entry\'s own GLOBAL (r, theta, z, v), hence the same global field on every '
+         'process grid; (b) wiring contracts for FluxSurfaceAdvection.gridStep, VParallelAdvection.gridStep / '
+         'gridStepKeepGradient and PoloidalAdvection.gridStep / gridStep_SplinesUnchanged: the per-slice operator `step` (and '
+         'parallel_gradient, compute_interpolant) carries as PRECONDITION that its slice argument is the live view of the local '
+         'slice and that the table row / radius / velocity / parallel-gradient entry / potential spline passed with it belong to '
+         'that slice\'s own coordinates (local row for tables built per layout, GLOBAL z index for the parallel-gradient table), '
+         'so every call site is one obligation for all shapes, starts and ends. The pre-fix code of both repaired defects and the '
+         'seeded change are refuted at exactly these obligations. Parallel gradient, density and the table constructors are C13 / '
+         'C16; the quasi-neutrality solve and the composition into a Strang step are covered by the bounded part only: the '
+         'statements of the driver time loop are sliced mechanically out of fullSimulation.main and one Strang step is executed with '
+         'the real classes on 1 and on several simulated ranks; the assembled global f and phi must agree with the serial run.',
+    note=PROOF_NOTE + BOUNDED_NOTE + 'The wiring contracts state the relation between slice and parameters; that the per-slice '
+         'operators compute the right thing from them is C10-C12. The Grid invariant used (local array has the layout shape, ranges '
+         'inside the global axes, trailing axes whole) is a precondition here (C02/C04). Found and fixed two genuine defects '
+         '(fix: 3ea85e8, 5860959).',
+    technique='sidecar contracts: loop invariants over 4-index arrays written through live views (initialisers); abstract callee '
+              'contracts whose preconditions relate the slice view to the caller\'s tables (wiring); bounded differential run of the '
+              'real driver statements across process grids under simulated MPI')
 
 TEXT['C12'] = dict(
     category='proof',
